@@ -33,8 +33,27 @@ impl ResourcesState {
         Ok(Self(state))
     }
 
-    /// Takes over from `other` the state of every file that `resources` currently denotes.
-    pub async fn adopt(&mut self, resources: &[FilesResource], other: &Self) {
+    /// Takes over from `other` - the state of `other_resources` as it is now - the state of
+    /// every file that `resources` currently denotes, and forgets the files held here that
+    /// `other_resources` cover and that are no longer there.
+    pub async fn adopt(
+        &mut self,
+        resources: &[FilesResource],
+        other: &Self,
+        other_resources: &[FilesResource],
+    ) {
+        let covered_by_other = |file: &std::path::Path| {
+            other_resources.iter().any(|resource| {
+                crate::domain::matches_extensions(file, &resource.extensions)
+                    && resource.paths.iter().any(|path| {
+                        let path: &std::path::Path = path.as_path().into();
+                        file.starts_with(path)
+                    })
+            })
+        };
+        self.0
+            .retain(|file, _| other.0.contains_key(file) || !covered_by_other(file));
+
         if other.0.is_empty() {
             return;
         }
